@@ -101,6 +101,13 @@ impl<K, V> HashMap<K, V> {
 }
 
 impl<K: Eq, V> HashMap<K, V> {
+    // Every operation walks the list with a loop counter and acts *inside*
+    // the loop, at the counter's value.  The counter is a concrete number in
+    // each unrolled iteration, so CBMC indexes the backing array at concrete
+    // positions under symbolic guards.  (An earlier version computed the
+    // position first and indexed afterwards: a symbolic index into an array of
+    // structs, which is what produced SAT instances of 90 M clauses.)
+
     fn pos<Q: ?Sized + Eq>(&self, k: &Q) -> Option<usize>
     where
         K: Borrow<Q>,
@@ -119,55 +126,78 @@ impl<K: Eq, V> HashMap<K, V> {
     where
         K: Borrow<Q>,
     {
-        match self.pos(k) {
-            Some(i) => Some(&self.items[i].1),
-            None => None,
+        let mut i = 0;
+        while i < self.items.len() {
+            if self.items[i].0.borrow() == k {
+                return Some(&self.items[i].1);
+            }
+            i += 1;
         }
+        None
     }
 
     pub fn get_key_value<Q: ?Sized + Eq>(&self, k: &Q) -> Option<(&K, &V)>
     where
         K: Borrow<Q>,
     {
-        match self.pos(k) {
-            Some(i) => Some((&self.items[i].0, &self.items[i].1)),
-            None => None,
+        let mut i = 0;
+        while i < self.items.len() {
+            if self.items[i].0.borrow() == k {
+                return Some((&self.items[i].0, &self.items[i].1));
+            }
+            i += 1;
         }
+        None
     }
 
     pub fn get_mut<Q: ?Sized + Eq>(&mut self, k: &Q) -> Option<&mut V>
     where
         K: Borrow<Q>,
     {
-        match self.pos(k) {
-            Some(i) => Some(&mut self.items[i].1),
-            None => None,
+        let n = self.items.len();
+        let mut i = 0;
+        while i < n {
+            if self.items[i].0.borrow() == k {
+                return Some(&mut self.items[i].1);
+            }
+            i += 1;
         }
+        None
     }
 
     pub fn contains_key<Q: ?Sized + Eq>(&self, k: &Q) -> bool
     where
         K: Borrow<Q>,
     {
-        self.pos(k).is_some()
+        let mut i = 0;
+        while i < self.items.len() {
+            if self.items[i].0.borrow() == k {
+                return true;
+            }
+            i += 1;
+        }
+        false
     }
 
     pub fn insert(&mut self, k: K, v: V) -> Option<V> {
-        match self.pos(&k) {
-            Some(i) => Some(std::mem::replace(&mut self.items[i].1, v)),
-            None => {
-                self.items.push((k, v));
-                None
+        let n = self.items.len();
+        let mut i = 0;
+        while i < n {
+            if self.items[i].0 == k {
+                return Some(std::mem::replace(&mut self.items[i].1, v));
             }
+            i += 1;
         }
+        self.items.push((k, v));
+        None
     }
 
     pub fn remove<Q: ?Sized + Eq>(&mut self, k: &Q) -> Option<V>
     where
         K: Borrow<Q>,
     {
-        match self.pos(k) {
-            Some(i) => Some(self.take_at(i).1),
+        match self.remove_entry(k) {
+            Some(kv) => Some(kv.1),
             None => None,
         }
     }
@@ -176,10 +206,15 @@ impl<K: Eq, V> HashMap<K, V> {
     where
         K: Borrow<Q>,
     {
-        match self.pos(k) {
-            Some(i) => Some(self.take_at(i)),
-            None => None,
+        let n = self.items.len();
+        let mut i = 0;
+        while i < n {
+            if self.items[i].0.borrow() == k {
+                return Some(self.take_at(i));
+            }
+            i += 1;
         }
+        None
     }
 
     pub fn entry(&mut self, k: K) -> Entry<'_, K, V> {
